@@ -440,6 +440,23 @@ Lemma reader_straddles_the_expiring_block :
   snd (run_sched w_exp ps (in_order [1; 0]%nat)) = [Some (TOut (OGetRes (GetExpired 122))); Some (TOut OBlockRes)].
 Proof. vm_compute. repeat split; reflexivity. Qed.
 
+(* 9. register || add_appointment of the same user: the request passes the expiry test (8 events: expiry 520), the renewal
+      is served (balance 20, expiry 920), the request is charged (balance 19): its receipt says "19 slots, expiry 520" -
+      after the renewal it would say 19 / 920, before it 9 / 520.  The final state is that of register ; add *)
+Definition w_add_across_renewal : list nat := repeat 1%nat 8 ++ repeat 0%nat 60 ++ repeat 1%nat 300.
+
+Lemma receipt_mixes_the_renewal :
+  let ps := [register_p 1; w_add] in
+  snd (run_sched w_reg ps w_add_across_renewal) =
+    [Some (TOut (ORegisterRes (RegOk 20 120 920))); Some (TOut (OAddRes (AddOk 120 1 19 520)))] /\
+  snd (run_sched w_reg ps (in_order [0; 1]%nat)) =
+    [Some (TOut (ORegisterRes (RegOk 20 120 920))); Some (TOut (OAddRes (AddOk 120 1 19 920)))] /\
+  snd (run_sched w_reg ps (in_order [1; 0]%nat)) =
+    [Some (TOut (ORegisterRes (RegOk 19 120 920))); Some (TOut (OAddRes (AddOk 120 1 9 520)))] /\
+  gk_users (fst (run_sched w_reg ps w_add_across_renewal)) = gk_users (fst (run_sched w_reg ps (in_order [0; 1]%nat))) /\
+  db_apps (fst (run_sched w_reg ps w_add_across_renewal)) = db_apps (fst (run_sched w_reg ps (in_order [0; 1]%nat))).
+Proof. vm_compute. repeat split; reflexivity. Qed.
+
 (* ------------------------------------------------------------------------------------------ *)
 (* the guard is necessary: add_appointment with the locator-cache guard dropped after the look-up (the
    store happens outside the critical section) — everything else unchanged — misses a breach: the
